@@ -169,6 +169,21 @@ fn scripts_for(prop: &str, tier: Tier) -> Vec<(String, Vec<Action>)> {
                 h.push(send(s, send_item(cid(IdKind::Chan, 0), enc(val, *a))));
             }
             out.push((format!("interop sender 1.{a} receiver 1.{b}"), h));
+            // aborts for older callees: the call is aborted by the caller (forwarded only to callees
+            // that know the message), then the callee answers late, and a second aborted call ends
+            // with the destruction of the service - the caller gets exactly what refbus says
+            let mut h = vec![connect(*a), connect(*b)];
+            h.push(send(r, create_object(1, crate::sym::obj_uuid(1))));
+            h.push(send(r, create_service(2, cid(IdKind::Obj, 0), crate::sym::svc_uuid(1), 1)));
+            h.push(send(s, call_function(7, cid(IdKind::Svc, 0), 1, enc(&corpus[0], *a))));
+            h.push(send(s, abort_function_call(7)));
+            h.push(send(r, call_function_reply(crate::sym::bserial(0), 0, enc(&corpus[1], *b))));
+            h.push(send(s, sync(8)));
+            h.push(send(s, call_function(9, cid(IdKind::Svc, 0), 1, enc(&corpus[0], *a))));
+            h.push(send(s, abort_function_call(9)));
+            h.push(send(r, destroy_service(10, cid(IdKind::Svc, 0))));
+            h.push(send(s, sync(11)));
+            out.push((format!("abort interop caller 1.{a} callee 1.{b}"), h));
         }
     }
     out
